@@ -47,7 +47,9 @@ def _arange(x, size, start, stop, step, arange_dtype, block_id=None):
     i = block_id[0]
     blockstart = start + (i * size * step)
     blockstop = start + ((i + 1) * size * step)
-    return nxp.arange(blockstart, min(blockstop, stop), step, dtype=arange_dtype)
+    # clamp the end of the block to the end of the range (the smaller bound if step is negative)
+    blockstop = max(blockstop, stop) if step < 0 else min(blockstop, stop)
+    return nxp.arange(blockstart, blockstop, step, dtype=arange_dtype)
 
 
 def asarray(
